@@ -326,7 +326,6 @@ int main(void)
 				else { h15_delta_copy_and_encode(&st, win, dst, len); memcpy(p + start, dst, len); }
 				free(win); free(dst);
 				start += len;
-				if (len == 0 && !(*s && *s != '-')) break;
 			}
 			hp_put_hex(p, n); printf("\n");
 			free(p);
